@@ -156,7 +156,23 @@ func ruleDbIterGuards(p *Prog, r *Report, rule string) {
 			if pc != nil {
 				for b := pc.Block(); b != nil && hdr == nil; b = b.Idom() {
 					for _, in := range b.Instrs {
-						if ph, ok := in.(*ssa.Phi); ok && ph.Comment == "del" {
+						// the loop-carried bool of the scan: named `del`, or (renamed) a bool phi fed
+						// from outside the loop and from a back edge
+						if ph, ok := in.(*ssa.Phi); ok && phiNamedOr(ph, "del", func(q *ssa.Phi) bool {
+							if !isBoolType(q.Type()) {
+								return false
+							}
+							in, back := false, false
+							for pi, pred := range q.Block().Preds {
+								_ = pi
+								if q.Block().Dominates(pred) {
+									back = true
+								} else {
+									in = true
+								}
+							}
+							return in && back
+						}) {
 							hdr = ph
 							break
 						}
